@@ -80,6 +80,22 @@ def gen_config(rng, tier, flavor="db"):
         cfg["big"] = True
         cfg["cache"] = True
         cfg["entry"] = rng.choice(["fit", "sampler", "steps"])
+    elif rng.random() < (0.012 if flavor != "trace" else 0.0):
+        # rare wide shapes: more known haplotypes than an int8 can index (the haplotype ARRAY is int8 as the programs hand it
+        # over; allele INDICES reach 128-255), ordinary ploidy
+        cfg["ploidy"] = rng.choice([2, 3, 4])
+        cfg["n_alleles"] = [2] * 8
+        cfg["n_haps"] = rng.choice([130, 150, 200, 256])
+        cfg["n_reads"] = rng.choice([1, 2, 3])
+        cfg["steps"] = 2
+        cfg["chains"] = 1
+        cfg["big"] = True
+        cfg["wide"] = True
+        cfg["initial"] = rng.choice(["random", "random", "greedy"])
+        cfg["inbreeding"] = rng.choice([0.0, 0.05, 0.3, 0.3])
+        cfg["dup_haplotype"] = False
+        if cfg["freqs"] == "zero":
+            cfg["freqs"] = "skewed"
     return cfg
 
 
